@@ -263,8 +263,23 @@ offset = next_offset''',
 offset = offset + %(advance)s
 %(lookup_fields)s = StructUnpack("%(fmt)s", raw[start_offset:offset])''', 'R7-cursor-at-failure')
 S('c12-str-format-mismatch', 'C12', PK,
-  '''            offset_and_pkt_class = "    %08x %s" % (offset, packet_class_name)''',
-  '''            offset_and_pkt_class = "    %08x %s" % (packet_class_name, offset)''', 'R7-str-total')
+  '''            offset_and_pkt_class = "    %s %s" % (
+                _offset_as_text(offset), packet_class_name
+            )''',
+  '''            offset_and_pkt_class = "    %s %s" % (
+                _offset_as_text(offset),
+            )''', 'R7-str-total')
+S('c12-offset-hex-unprotected', 'C12', PK,
+  '''    try:
+        return "%08x" % offset
+    except TypeError:
+        return "%8r" % (offset, )''',
+  '''    return "%08x" % offset''', 'R7-str-total')
+S('c12-offset-hex-in-fstring', 'C12', PK,
+  '''            offset_and_pkt_class = "    %s %s" % (
+                _offset_as_text(offset), packet_class_name
+            )''',
+  '''            offset_and_pkt_class = f"    {offset:08x} {packet_class_name}"''', 'R7-str-total')
 S('c12-parent-inserted-front', 'C12', PK,
   '''        self.fields_stack.append((offset, field_name, packet_class_name))''',
   '''        self.fields_stack.insert(0, (offset, field_name, packet_class_name))''', 'R7-stack-shape')
@@ -311,8 +326,10 @@ B('c12-benign-raise-e', 'C12', PK,
             )
             raise e''')
 B('c12-benign-fstring-message', 'C12', PK,
-  '''            offset_and_pkt_class = "    %08x %s" % (offset, packet_class_name)''',
-  '''            offset_and_pkt_class = f"    {offset:08x} {packet_class_name}"''')
+  '''            offset_and_pkt_class = "    %s %s" % (
+                _offset_as_text(offset), packet_class_name
+            )''',
+  '''            offset_and_pkt_class = f"    {_offset_as_text(offset)} {packet_class_name}"''')
 
 # =========================================================================== C20
 S('c20-default-removed-eq', 'C20', PK,
